@@ -43,6 +43,7 @@ let rec expr () = match next () with
   | t -> failwith ("expr " ^ t)
 let rec stmt () = match next () with
   | "as" -> let x = nat () in let e = expr () in C.SAssign (x, e)
+  | "df" -> let x = nat () in let e = expr () in C.SDef (x, e)
   | "de" -> let x = nat () in let t = ty () in let e = expr () in C.SDecl (x, t, e)
   | "sif" -> let c = expr () in let a = stmt () in let b = stmt () in C.SIf (c, a, b)
   | "wh" -> let c = expr () in let b = stmt () in C.SWhile (c, b)
